@@ -11,12 +11,13 @@ RECT_FAMILIES = ['ortho-1d', 'ortho-2d', 'ortho-3d', 'skew-2d', 'skew-3d',
                  'flip-order', 'array-own', 'array-zero', 'shorthand',
                  'cli-single', 'cli-degenerate', 'fill-translation',
                  'fill-rotation', 'lat-trcl', 'container-rot',
-                 'container-small', 'container-trcl', 'rotated-cell']
+                 'container-small', 'container-trcl', 'rotated-cell',
+                 'nested', 'rpp-cell', 'box-cell']
 HEX_FAMILIES = ['regular-6', 'regular-8', 'irregular-6', 'irregular-8',
                 'rotated-6', 'rotated-8', 'handed-minus', 'handed-plus',
                 'swap-last', 'cli-single', 'array-own-zero', 'fill-rotation',
                 'container-rot', 'flip-axial', 'nonadjacent-6',
-                'nonadjacent-8']
+                'nonadjacent-8', 'nested', 'side-planes-with-tr']
 
 LAT_U = 50          # universe of the lattice cell
 LAT_CELL = 500
@@ -182,6 +183,31 @@ def _place(bld, family, trcl_family='container-trcl'):
     return fill_tr, trcl
 
 
+def _maybe_nested(bld, family, lattice_fill, span):
+    '''For the nested family the container is filled by an intermediate
+    universe one of whose cells is filled by the lattice universe (through a
+    rotated fill transformation): chains of depth 3.'''
+    if family != 'nested':
+        return lattice_fill
+    rng = bld.rng
+    mid = 60
+    rad = round(min(9.0, 0.8 * span + 1.0), 3)
+    bld.deck.surfs.append(M.Surf(601, 's', [rnd(rng, -0.3, 0.3),
+                                            rnd(rng, -0.3, 0.3),
+                                            rnd(rng, -0.3, 0.3), rad]))
+    mot = motion_of_class(rng, rng.choice(['generic', 'quarter', 'translation']))
+    mot = Motion([rnd(rng, -0.5, 0.5) for _ in range(3)], mot.b)
+    inner = M.Fill(universe=LAT_U, tr=tr_spec(rng, mot, 'inline12'))
+    mat, rho = bld.material()
+    bld.deck.cells.append(M.Cell(601, mat=mat, rho=rho, geom=M.S(-601),
+                                 imp={'n': '1'}, u=mid, fill=inner))
+    mat, rho = bld.material()
+    bld.deck.cells.append(M.Cell(602, mat=mat, rho=rho, geom=M.S(601),
+                                 imp={'n': '1'}, u=mid))
+    outer_mot = Motion([rnd(rng, -0.5, 0.5) for _ in range(3)])
+    return M.Fill(universe=mid, tr=tr_spec(rng, outer_mot, 'inline3'))
+
+
 def _fill_for_lattice(bld, family, ranges3, ndim, universes, cell_id):
     '''The FILL of the lattice cell and the CLI option if needed.'''
     rng = bld.rng
@@ -233,6 +259,8 @@ def _fill_for_lattice(bld, family, ranges3, ndim, universes, cell_id):
 def build_rect(rng, family):
     bld = LatBuilder(rng, f'C06 {family}')
     deck = bld.deck
+    if family in ('rpp-cell', 'box-cell'):
+        return _build_macro_cell(bld, family)
     if family in ('ortho-1d',):
         ndim = 1
     elif family in ('ortho-3d', 'skew-3d'):
@@ -300,13 +328,57 @@ def build_rect(rng, family):
     span *= max(lens[:ndim])
     geom = _container(bld, family, span)
     fill_tr, trcl = _place(bld, family)
-    cfill = M.Fill(universe=LAT_U, tr=fill_tr)
+    cfill = _maybe_nested(bld, family, M.Fill(universe=LAT_U, tr=fill_tr), span)
     deck = finish(bld, geom, lat, cfill, trcl=trcl)
     deck.tags.add(f'c06.{family}')
     deck.tags.add(f'lat1.dim{ndim}')
     if skew:
         deck.tags.add('lat1.skew')
     _element_hints(deck, lat, truth, origin, ranges, cfill, trcl)
+    return deck
+
+
+def _build_macro_cell(bld, family):
+    '''LAT=1 cell written as the inside of an RPP or BOX macrobody: the
+    facets, in MCNP facet order, play the role of the listed surfaces (facet
+    1 = +a1 side, facet 3 = +a2 side, facet 5 = +a3 side).'''
+    rng = bld.rng
+    deck = bld.deck
+    lens = [rnd(rng, 1.3, 2.4) for _ in range(3)]
+    origin = np.array([rnd(rng, -0.4, 0.4) for _ in range(3)])
+    if family == 'rpp-cell':
+        vecs = [np.eye(3)[k] * lens[k] for k in range(3)]
+        par = []
+        for k in range(3):
+            par += [float(origin[k] - lens[k] / 2), float(origin[k] + lens[k] / 2)]
+        deck.surfs.append(M.Surf(10, 'rpp', par))
+    else:
+        frame = random_rotation(rng)
+        vecs = [frame[k] * lens[k] * (1 if rng.random() < 0.6 else -1)
+                for k in range(3)]
+        corner = origin - 0.5 * (vecs[0] + vecs[1] + vecs[2])
+        deck.surfs.append(M.Surf(10, 'box', [float(v) for v in corner]
+                                 + [float(v) for vec in vecs for v in vec]))
+    ranges = _ranges(rng, 3, total_cap=36)
+    nuni = rng.randint(2, 4)
+    universes = list(range(1, nuni + 1))
+    for uni in universes:
+        bld.element_universe(uni, min(lens))
+    fil = _fill_for_lattice(bld, rng.choice(['array', 'array-own',
+                                             'cli-single']), ranges, 3,
+                            universes, LAT_CELL)
+    mat_l, rho_l = bld.material()
+    lat = M.Cell(LAT_CELL, mat=mat_l, rho=rho_l, geom=M.S(-10),
+                 imp={'n': '1'}, u=LAT_U, lat=1, fill=fil)
+    lat.lat_info = M.LatticeTruth(1, origin, vecs)
+    deck.cells.append(lat)
+    span = (max(abs(v) for lo_hi in ranges for v in lo_hi) + 1) * max(lens)
+    geom = _container(bld, family, span)
+    cfill = M.Fill(universe=LAT_U)
+    deck = finish(bld, geom, lat, cfill)
+    deck.tags.add(f'c06.{family}')
+    deck.tags.add('lat1.macrobody-cell')
+    _element_hints(deck, lat, vecs, origin, ranges, cfill, None)
     return deck
 
 
@@ -397,6 +469,19 @@ def build_hex(rng, family):
     for k in order:
         sid, wrote = bld.plane(normals[k], origin + hexv[k])
         leaves.append(M.S(-sid if wrote > 0 else sid))
+    if family == 'side-planes-with-tr':
+        # some side planes carry a TR whose displacement is along the prism
+        # axis: the planes are unchanged as point sets
+        tid = bld.next_tr
+        bld.next_tr += 1
+        shift = wax * rnd(rng, 1.0, 3.0) * (1 if rng.random() < 0.5 else -1)
+        deck.trs.append(tr_card(rng, tid, Motion([float(v) for v in shift]),
+                                rng.choice(['3', '12'])))
+        side_ids = [lf[1] for lf in leaves]
+        chosen = rng.sample(side_ids, rng.randint(1, 4))
+        for sur in deck.surfs:
+            if sur.id in chosen:
+                sur.tr = tid
     truth = [trans[first], trans[third]]
     ndim = 2
     hgt = rnd(rng, 1.5, 2.5)
@@ -432,7 +517,7 @@ def build_hex(rng, family):
     span = (max(abs(v) for lo_hi in ranges for v in lo_hi) + 1) * 3.0
     geom = _container(bld, family, span)
     fill_tr, trcl = _place(bld, family)
-    cfill = M.Fill(universe=LAT_U, tr=fill_tr)
+    cfill = _maybe_nested(bld, family, M.Fill(universe=LAT_U, tr=fill_tr), span)
     deck = finish(bld, geom, lat, cfill, trcl=trcl)
     deck.tags.add(f'c07.{family}')
     deck.tags.add(f'lat2.planes{6 + 2 * axial}')
